@@ -504,13 +504,24 @@ def rule_wpostfix(roles):
 
 
 def rule_munch(roles, tm):
+    first = _rule_munch(roles, tm, roles.token_bodies())
+    if not any(o.status == 'violated' for o in first):
+        return first
+    second = _rule_munch(roles, tm, roles.token_bodies(views='ho'))
+    if not any(o.status == 'violated' for o in second):
+        for o in second:
+            o.what += ' [read with higher-order helpers opened]'
+        return second
+    return first
+
+
+def _rule_munch(roles, tm, bodies):
     """symbolic-operator scanner: the run is extended exactly while the longer slice is a registered
     operator (longest registered operator wins); no other condition cuts the run short"""
     prog = roles.prog
     obs = []
     n = 0
-    for bid in sorted(roles.reach):
-        b = prog.by_id[bid]
+    for b in bodies:
         if not any(rv['k'] == 'agg' and rv.get('adt') == roles.token_adt and rv.get('variant') == 'Operator' for bb, i, pl, rv in b.assigns()):
             continue
         advs = [c for c in b.live_calls if c.ruid in tm.char_adv and any(c.bb in s for s in b.sccs())]
